@@ -304,9 +304,7 @@ def simp(e):
         pj = e[2]
         # drop the `?` continuation projection
         pj2 = pj.replace("@Continue.0", "").replace("@Ready.0", "")
-        if base[0] == "call" and pj2.startswith("@Ok.0"):
-            # `match f() { Ok(v) => v, Err(e) => return Err(e) }` is `f()?`
-            pj2 = pj2[len("@Ok.0"):]
+
         while pj2.startswith(".*"):
             pj2 = pj2[2:]
         if not pj2:
